@@ -60,8 +60,8 @@ func init() {
 // counter = int64 field incremented in the block reader; current = field assigned from the received pair's offset in Next;
 // previous = field assigned from current in Next.
 type c09Fields struct {
-	counter, current, previous *types.Var
-	blockReader                *FuncInfo
+	counter, current, previous  *types.Var
+	blockReader                 *FuncInfo
 	pairOffsetIn, pairOffsetOut *types.Var // Offset fields of the input / output pair types
 }
 
